@@ -59,15 +59,28 @@ Definition opt_nat_same (a b : option nat) : bool :=
   | _, _ => false
   end.
 Definition glist_ids (g : glist) : list N := flat_map (fun f => map fst (snd f)) g.
+
+(** every id reachable from [id] through parameters and definitions, bit sequences included
+    (the traversal of the derive flattening, [collect_type_ids], skips the children of bit
+    sequences and is therefore not used here) *)
+Fixpoint reach_all (fuel : nat) (r : registry) (id : N) (visited : list N) : list N :=
+  match fuel with
+  | O => visited
+  | S fuel' =>
+      if mem_N id visited then visited
+      else
+        match resolve r id with
+        | None => id :: visited
+        | Some t =>
+            fold_left (fun vis c => reach_all fuel' r c vis) (param_ids t ++ def_ids (t_def t)) (id :: visited)
+        end
+  end.
 Definition same_id_suspicious (r : registry) (a : N) (ap bp : glist) : bool :=
   if glist_eqb ap bp then false
   else
-    match collect_type_ids r a with
-    | Ok reach =>
-        existsb (fun i => mem_N i reach && negb (opt_nat_same (index_for_type_id ap i) (index_for_type_id bp i)))
-                (glist_ids ap ++ glist_ids bp)
-    | _ => true
-    end.
+    let reach := reach_all (S (List.length r)) r a [] in
+    existsb (fun i => mem_N i reach && negb (opt_nat_same (index_for_type_id ap i) (index_for_type_id bp i)))
+            (glist_ids ap ++ glist_ids bp).
 
 (** state: visited sets and the number of suspicious decisions *)
 Definition tstate := (vstate * N)%type.
